@@ -281,12 +281,11 @@ func (c *Ctx) c13Email() {
 	for _, body := range bodies {
 		for _, call := range CallsTo(body, fnServeHTTP) {
 			ns++
-			fs := FactsAtInstr(call.(ssa.Instruction))
-			flagOff := HasFact(fs, func(f Fact) bool {
+			flagOff := func(f Fact) bool {
 				rel := f.Rel()
 				return rel.B != nil && !rel.Pol && fieldLoadName(rel.B) == "TwoFactorEmailAuthRequired"
-			})
-			isAuthed := HasFact(fs, func(f Fact) bool {
+			}
+			isAuthed := func(f Fact) bool {
 				rel := f.Rel()
 				if rel.Op != token.EQL {
 					return false
@@ -301,8 +300,9 @@ func (c *Ctx) c13Email() {
 				}
 				k, _ := constArgStr(g, 1)
 				return k == authed
-			})
-			r.Check(flagOff || isAuthed, "C13.email", FuncName(body), "handler.ServeHTTP", posf(c, call), "wrapped enrolment handler runs only when authorisation is off or session["+authed+"]==\"true\"", "the wrapped enrolment handler can run without the e-mail authorisation mark")
+			}
+			okGate := HoldsAt(call.(ssa.Instruction), func(f Fact) bool { return flagOff(f) || isAuthed(f) })
+			r.Check(okGate, "C13.email", FuncName(body), "handler.ServeHTTP", posf(c, call), "wrapped enrolment handler runs only when authorisation is off or session["+authed+"]==\"true\"", "the wrapped enrolment handler can run without the e-mail authorisation mark")
 		}
 	}
 	if ns == 0 {
